@@ -50,16 +50,61 @@ fn ops() -> Vec<Op> {
     v
 }
 
-fn build(script: &[Op]) -> Option<Snap> {
+/// What the builder starts from before the script runs: nothing, one large item
+/// leaving `room` bytes below the 64 KiB limit, or `items` small items (item-count limit).
+#[derive(Clone, Copy, Debug, PartialEq)]
+enum Prefill {
+    None,
+    Room(usize),
+    Items(usize),
+}
+
+const FILL_TYPE: TypeId = TypeId::Ordinal(3);
+
+fn prefill(b: &mut Builder, pf: Prefill, model: &mut Model) -> Result<(), String> {
+    match pf {
+        Prefill::None => {}
+        Prefill::Room(room) => {
+            // serialized size = 8 (header) + 4 (offset) + 4 (key) + 4 * words
+            let words = (65536 - 16 - room) / 4;
+            let data: Vec<i32> = (0..words as i32).map(|x| x.wrapping_mul(7)).collect();
+            b.add_item(FILL_TYPE, 7, &data).map_err(|e| format!("prefill refused: {:?}", e))?;
+            model.insert((format!("{:?}", FILL_TYPE), 7), (FILL_TYPE, data));
+        }
+        Prefill::Items(n) => {
+            for i in 0..n {
+                b.add_item(FILL_TYPE, 100 + i as u16, &[]).map_err(|e| format!("prefill refused: {:?}", e))?;
+                model.insert((format!("{:?}", FILL_TYPE), 100 + i as u16), (FILL_TYPE, vec![]));
+            }
+        }
+    }
+    Ok(())
+}
+
+type Model = std::collections::BTreeMap<(String, u16), (TypeId, Vec<i32>)>;
+
+/// Runs the script on a real builder and on the reference model (a plain map). A refused
+/// `add_item` leaves the model unchanged and the builder stays in use: the statement is
+/// about every snapshot the builder hands out, also after it has refused something.
+fn build(pf: Prefill, script: &[Op]) -> Result<(Snap, Model, usize), String> {
     let ty = types();
     let da = datas();
     let mut b = Builder::new();
+    let mut model = Model::new();
+    prefill(&mut b, pf, &mut model)?;
+    let mut refused = 0;
     for &(t, i, d) in script {
-        if b.add_item(ty[t], IDS[i], &da[d]).is_err() {
-            return None; // builder-rejected (duplicate key)
+        let key = (format!("{:?}", ty[t]), IDS[i]);
+        match b.add_item(ty[t], IDS[i], &da[d]) {
+            Ok(()) => {
+                if model.insert(key, (ty[t], da[d].clone())).is_some() {
+                    return Err("builder accepted a second item with the same type and id".into());
+                }
+            }
+            Err(_) => refused += 1,
         }
     }
-    Some(b.finish())
+    Ok((b.finish(), model, refused))
 }
 
 /// Everything observable through the public API.
@@ -85,14 +130,7 @@ fn observe(s: &Snap) -> Observed {
     Observed { items, lookups, crc: s.crc(), len: s.items().len() }
 }
 
-fn expected(script: &[Op]) -> Observed {
-    // reference model: a plain map from (type, id) to data
-    let ty = types();
-    let da = datas();
-    let mut map: std::collections::BTreeMap<(String, u16), (TypeId, Vec<i32>)> = Default::default();
-    for &(t, i, d) in script {
-        map.insert((format!("{:?}", ty[t]), IDS[i]), (ty[t], da[d].clone()));
-    }
+fn expected(map: &Model) -> Observed {
     let mut items: Vec<(String, u16, Vec<i32>)> = map.iter().map(|(k, v)| (k.0.clone(), k.1, v.1.clone())).collect();
     items.sort();
     let mut lookups = Vec::new();
@@ -113,20 +151,18 @@ fn raw_registry(ints: &[i32]) -> Result<Vec<(u16, Vec<i32>)>, String> {
     Ok(r.items().filter(|i| i.raw_type_id == 0).map(|i| (i.id, i.data.to_vec())).collect())
 }
 
-fn check(script: &[Op]) -> Result<String, String> {
-    let s = match build(script) {
-        Some(s) => s,
-        None => return Ok("skip:builder-rejected".into()),
-    };
+fn check(pf: Prefill, script: &[Op]) -> Result<String, String> {
+    let (s, model, refused) = build(pf, script)?;
     let orig = observe(&s);
     // the builder itself against the reference model (without the checksum)
-    let exp = expected(script);
+    let exp = expected(&model);
     if orig.items != exp.items || orig.lookups != exp.lookups || orig.len != exp.len {
         return Err(format!("built snapshot differs from the model: {:?} vs {:?}", orig, exp));
     }
     let mut tmp = Vec::new();
     // bytes
-    let mut bytes: Vec<u8> = Vec::with_capacity(4096);
+    let cap = if pf == Prefill::None { 1024 } else { 17000 };
+    let mut bytes: Vec<u8> = Vec::with_capacity(5 * cap);
     with_packer(&mut bytes, |p| s.write(&mut tmp, p).map(|b| b.len())).map_err(|_| "write: capacity".to_string())?;
     let mut w: Vec<Warning> = Vec::new();
     let mut from_bytes = Snap::empty();
@@ -140,7 +176,7 @@ fn check(script: &[Op]) -> Result<String, String> {
         return Err(format!("copy read from bytes differs: {:?} vs original {:?}", ob, orig));
     }
     // ints
-    let mut ints = vec![0i32; 1024];
+    let mut ints = vec![0i32; cap];
     let n = s.write_to_ints(&mut tmp, &mut ints).map_err(|_| "write_to_ints: capacity".to_string())?.len();
     let mut from_ints = Snap::empty();
     from_ints.read_from_ints(&mut w, &ints[..n]).map_err(|e| format!("reading the written ints fails: {:?}", e))?;
@@ -153,9 +189,9 @@ fn check(script: &[Op]) -> Result<String, String> {
     }
     // copies obtained by applying a delta (from the empty snapshot and from the prefix)
     for (name, base_script) in [("empty", &script[..0]), ("prefix", &script[..script.len().saturating_sub(1)])] {
-        let base = build(base_script).unwrap();
+        let base = build(pf, base_script)?.0;
         // read the base from the wire too, as a client would hold it
-        let mut bi = vec![0i32; 1024];
+        let mut bi = vec![0i32; cap];
         let bn = base.write_to_ints(&mut tmp, &mut bi).map_err(|_| "capacity".to_string())?.len();
         let mut base_rx = Snap::empty();
         base_rx.read_from_ints(&mut w, &bi[..bn]).map_err(|e| format!("{:?}", e))?;
@@ -174,6 +210,10 @@ fn check(script: &[Op]) -> Result<String, String> {
             return Err(format!("copy obtained by delta from {} differs: {:?} vs original {:?}", name, oc, orig));
         }
     }
+    if pf != Prefill::None {
+        // at the limits the recycled builder has no room for the probe items
+        return Ok(format!("ok:{}:refused{}:items{}", match pf { Prefill::Room(_) => "near-size-limit", _ => "near-item-limit" }, refused.min(3), (orig.len - model.len().min(orig.len)) + script.len() - refused));
+    }
     // recycle the received copy: known UUID types keep their number, a new one gets a fresh number
     let reg_before = raw_registry(&ints[..n])?;
     let u = uuids();
@@ -188,7 +228,7 @@ fn check(script: &[Op]) -> Result<String, String> {
     }
     b.add_item(TypeId::Uuid(u[3]), 9, &[33]).map_err(|e| format!("add new uuid to recycled builder: {:?}", e))?;
     let s2 = b.finish();
-    let mut ints2 = vec![0i32; 1024];
+    let mut ints2 = vec![0i32; cap];
     let n2 = s2.write_to_ints(&mut tmp, &mut ints2).map_err(|_| "capacity".to_string())?.len();
     let reg_after = raw_registry(&ints2[..n2])?;
     for (num, data) in &expect_known {
@@ -208,7 +248,7 @@ fn check(script: &[Op]) -> Result<String, String> {
         return Err(format!("duplicate type numbers after recycling: {:?}", reg_after));
     }
     let nuuid = reg_before.len();
-    Ok(format!("ok:items{}:uuid-types{}", orig.len.min(4), nuuid))
+    Ok(format!("ok:items{}:uuid-types{}:refused{}", orig.len.min(4), nuuid, refused.min(2)))
 }
 
 fn limits(run: &Arc<Run>) {
@@ -293,6 +333,7 @@ fn limits(run: &Arc<Run>) {
 
 fn main() {
     let run = Run::new("C10", "exploration");
+    let t0 = std::time::Instant::now();
     let depth = run.tier.pick(4, 5);
     let ops = ops();
     let n = ops.len();
@@ -312,7 +353,7 @@ fn main() {
                 i /= n;
             }
             lc.eval();
-            match vp_core::catch(|| check(&script)) {
+            match vp_core::catch(|| check(Prefill::None, &script)) {
                 Ok(Ok(c)) => lc.class(&c, || json!({"script": script})),
                 Ok(Err(msg)) => {
                     let sig = format!("c10:{}", msg.split(':').next().unwrap_or(""));
@@ -327,8 +368,44 @@ fn main() {
         .reduce(LocalClasses::new, |a, b| a.merge(b));
     run.merge_classes(lc);
     limits(&run);
+    // near the limits: every script of length <= 2 (3 thorough) run on a builder that is
+    // `room` bytes below the 64 KiB limit or 0..3 items below the 1024-item limit
+    let mut pfs: Vec<Prefill> = (0..=48).step_by(4).map(Prefill::Room).collect();
+    pfs.extend((1020..=1024).map(Prefill::Items));
+    let ldepth = run.tier.pick(2, 3);
+    let ltotal: usize = (0..=ldepth).map(|d| n.pow(d as u32)).sum();
+    let jobs: Vec<(Prefill, usize)> = pfs.iter().flat_map(|&pf| (0..ltotal).map(move |i| (pf, i))).collect();
+    let lc = jobs
+        .into_par_iter()
+        .fold(LocalClasses::new, |mut lc, (pf, idx)| {
+            let mut i = idx;
+            let mut d = 0;
+            while i >= n.pow(d as u32) {
+                i -= n.pow(d as u32);
+                d += 1;
+            }
+            let mut script = Vec::new();
+            for _ in 0..d {
+                script.push(ops[i % n]);
+                i /= n;
+            }
+            lc.eval();
+            match vp_core::catch(|| check(pf, &script)) {
+                Ok(Ok(c)) => lc.class(&c, || json!({"prefill": format!("{:?}", pf), "script": script})),
+                Ok(Err(msg)) => {
+                    let sig = format!("c10:limit:{}", msg.split(':').next().unwrap_or(""));
+                    run.violation(&sig, &msg, json!({"prefill": format!("{:?}", pf), "script_type_id_data_indices": script, "types": ["ordinal 1", "ordinal 2", "uuid A", "uuid B", "uuid C"], "ids": IDS, "datas": datas()}));
+                }
+                Err(p) => {
+                    run.violation(&format!("c10:limit:{}", vp_core::panic_sig(&p)), &p, json!({"prefill": format!("{:?}", pf), "script_type_id_data_indices": script}));
+                }
+            }
+            lc
+        })
+        .reduce(LocalClasses::new, |a, b| a.merge(b));
+    run.merge_classes(lc);
     run.finish(
-        &format!("all builder scripts of length <= {} over add_item(type in {{ordinal 1, ordinal 2, 3 UUID types}}, id in {{0,1,65535}}, data in {{[],[7],[1,2,3]}}) (duplicates rejected by the builder are skipped): written to bytes and ints, read back, compared through items(), item(type,id) for every key of the alphabet and crc(); copies obtained by delta from the empty snapshot and from the script prefix; received copy recycled (known UUID types keep their number, a new one gets a fresh one); item-count and size limit families", depth),
+        &format!("all builder scripts of length <= {} over add_item(type in {{ordinal 1, ordinal 2, 3 UUID types}}, id in {{0,1,65535}}, data in {{[],[7],[1,2,3]}}) (an add the builder refuses leaves the reference map unchanged and the builder stays in use): written to bytes and ints, read back, compared through items(), item(type,id) for every key of the alphabet and crc(); copies obtained by delta from the empty snapshot and from the script prefix; received copy recycled (known UUID types keep their number, a new one gets a fresh one); item-count and size limit families; every script of length <= {} on a builder prefilled to 0..48 bytes below the 64 KiB limit or to 1020..1024 items", depth, ldepth),
         true,
     );
 }
